@@ -59,6 +59,7 @@ type Case struct {
 	Out      [4]int `json:"out"` // Run, Shutdown, Cleanup, ErrorHandler
 	RunMode  int    `json:"runmode"`
 	ParkMain bool   `json:"parkmain,omitempty"`
+	BlockFmt int    `json:"blockfmt"` // 0 none; 1+ph: that phase panics with a value whose String() parks until released
 	Steps    []Step `json:"steps"`
 }
 
@@ -116,6 +117,14 @@ func maskOf(err error) int {
 			m |= 1 << i
 		}
 	}
+	// a panic value that was formatted (blockVal) is found by its text
+	for _, e := range ers.Unwind(err) {
+		for i, t := range tokens[:7] {
+			if strings.HasSuffix(e.Error(), "]: "+t.Error()) {
+				m |= 1 << i
+			}
+		}
+	}
 	return m
 }
 
@@ -150,6 +159,9 @@ type exec struct {
 	mainPark chan struct{}
 	mainRel  chan struct{}
 	mainOnce sync.Once
+	fmtIn    chan struct{} // closed when the panic value's formatter is entered
+	fmtRel   chan struct{} // closed by the driver to let it return
+	fmtOnce  sync.Once
 	fails    []string // "signature|detail"
 	aborted  bool
 	failMu   sync.Mutex
@@ -239,6 +251,31 @@ func (x *exec) phase(ph int, body func()) {
 	x.log(Event{Ty: evEnd, Ph: ph})
 }
 
+// blockVal is a panic value that is neither an error nor a string, so ers.ParsePanic formats it (%v ->
+// String()). String parks until the driver releases it: the goroutine is then held inside erc.Recover,
+// after its phase function stopped and before the panic is recorded in the collector.
+type blockVal struct {
+	x    *exec
+	name string
+}
+
+func (b blockVal) String() string {
+	b.x.fmtOnce.Do(func() {
+		close(b.x.fmtIn)
+		if !waitCh(b.x.fmtRel) {
+			b.x.fail("C10:harness:formatter-release-timeout", "the parked panic formatter was never released")
+		}
+	})
+	return b.name
+}
+
+func (x *exec) outcomeOf(ph int, e, p *tokErr) error {
+	if x.c.Out[ph] == oPanic && x.c.BlockFmt == ph+1 {
+		panic(blockVal{x, p.name})
+	}
+	return outcome(x.c.Out[ph], e, p)
+}
+
 func outcome(o int, e, p *tokErr) error {
 	switch o {
 	case oErr:
@@ -275,20 +312,23 @@ func (x *exec) build() {
 					}
 				}
 			})
-			return outcome(c.Out[0], errRun, errRunPanic)
+			return x.outcomeOf(0, errRun, errRunPanic)
 		}
 	}
 	if c.Out[1] != oAbsent {
-		s.Shutdown = func() error { x.phase(1, nil); return outcome(c.Out[1], errSd, errSdPanic) }
+		s.Shutdown = func() error { x.phase(1, nil); return x.outcomeOf(1, errSd, errSdPanic) }
 	}
 	if c.Out[2] != oAbsent {
-		s.Cleanup = func() error { x.phase(2, nil); return outcome(c.Out[2], errCl, errClPanic) }
+		s.Cleanup = func() error { x.phase(2, nil); return x.outcomeOf(2, errCl, errClPanic) }
 	}
 	if c.Out[3] != oAbsent {
 		s.ErrorHandler.Set(func(err error) {
 			x.log(Event{Ty: evBegin, Ph: 3, ArgNN: err != nil})
 			x.log(Event{Ty: evEnd, Ph: 3})
 			if c.Out[3] == oPanic {
+				if c.BlockFmt == 4 {
+					panic(blockVal{x, errEhPanic.name})
+				}
 				panic(errEhPanic)
 			}
 		})
@@ -335,6 +375,8 @@ func (x *exec) run() {
 	x.gate = make(chan struct{})
 	x.mainPark = make(chan struct{})
 	x.mainRel = make(chan struct{})
+	x.fmtIn = make(chan struct{})
+	x.fmtRel = make(chan struct{})
 	x.events = make([]Event, 64+16*len(x.c.Steps))
 	x.build()
 	current.Store(x)
@@ -377,6 +419,20 @@ func (x *exec) run() {
 			if !waitCh(x.mainPark) {
 				x.abort("C10:harness:main-never-parked", "main goroutine did not reach "+hookMainFin)
 			}
+		case "fmtpark":
+			if !waitCh(x.fmtIn) {
+				x.abort("C10:harness:formatter-never-entered", "the panic value's formatter was not entered within 10s")
+			}
+		case "fmtrelease":
+			x.releaseFmt()
+		case "grace":
+			// scheduling aid only (never evidence): give caller T the chance to return on its own
+			t := time.NewTimer(300 * time.Millisecond)
+			select {
+			case <-x.callers[st.T].done:
+			case <-t.C:
+			}
+			t.Stop()
 		case "mainrelease":
 			x.log(Event{Ty: evResumeMain})
 			close(x.mainRel)
@@ -394,6 +450,7 @@ func (x *exec) run() {
 	}
 	if !x.aborted {
 		// everything the script started has been told to stop: wait for all callers, then for the service
+		x.releaseFmt()
 		for _, cl := range x.callers {
 			select {
 			case <-cl.release:
@@ -423,6 +480,7 @@ func (x *exec) run() {
 	}
 	if x.aborted {
 		// unblock whatever is left so that nothing leaks into the next case
+		x.releaseFmt()
 		x.gateOnce.Do(func() { close(x.gate) })
 		x.pcancel()
 		x.mainOnce.Do(func() {})
@@ -440,6 +498,14 @@ func (x *exec) run() {
 		}
 	}
 	x.pcancel()
+}
+
+func (x *exec) releaseFmt() {
+	select {
+	case <-x.fmtRel:
+	default:
+		close(x.fmtRel)
+	}
 }
 
 func title(k string) string {
